@@ -52,6 +52,7 @@ type Input struct {
 	Histories []History `json:"histories"`
 	Probes    bool      `json:"probes"`
 	Strict    bool      `json:"strict"`
+	Router    []RSet    `json:"router"`
 }
 
 func spell(n, sp string) string {
@@ -309,6 +310,8 @@ func TestXApi(t *testing.T) {
 	if in.Probes {
 		probes(t, res)
 	}
+	routerCases(t, res, in.Router)
+	writeObservations()
 }
 
 func replay(t *testing.T, res *vh.Result, in *Input, h *History) {
@@ -491,7 +494,7 @@ func replay(t *testing.T, res *vh.Result, in *Input, h *History) {
 					}
 					if key == "w" {
 						if code != want {
-							res.Count("observation_get_wildcard", 1)
+							observe(res, "get-wildcard", "block/get/%s answers %d %s although block/set of that key succeeded and block/exists says true (Get looks at the exact-name map only)", spell(key, st.Sp), code, raw)
 							if in.Strict {
 								viol("get-wildcard", "block/get of the wildcard entry answered %d %s", code, raw)
 							}
